@@ -36,7 +36,7 @@ structure Transfer where
   simple : Option String
   children : List String
   lease : Nat
-deriving Repr
+deriving DecidableEq, Repr
 
 inductive Op where
   | put (k v : String)
@@ -48,7 +48,7 @@ inductive Op where
   | release (k : String) (tok : Nat)
   | imp (items : List (String × Option Transfer))    -- `none` = nil *KVTransfer
   | removeKeys (ks : List String)
-deriving Repr
+deriving DecidableEq, Repr
 
 structure Store where
   simple : String → Option String
@@ -162,5 +162,59 @@ def step (h : String → Nat) (st : Store) (op : Op) : Store × Option Err :=
   | .error e => (st, some e)
 
 def run (h : String → Nat) (st : Store) (ops : List Op) : Store := ops.foldl (fun s o => (step h s o).1) st
+
+/-! ## The caller's context (`withWriteTx(ctx, …)`)
+
+Every API call hands its `ctx` to `db.BeginTx`; `database/sql` then watches it (`Tx.awaitDone`): when the
+context ends the watcher marks the transaction done and rolls it back.  `CtxEnd` says where the context of
+one call ends relative to that call's transaction. -/
+inductive CtxEnd where
+  | alive                          -- not before `Commit` has taken the transaction over
+  | beforeBegin                    -- `db.BeginTx(ctx, nil)` fails
+  | inBody (early : Bool)          -- a statement of the body is refused (`tx.StmtContext(ctx, …)` sees the ended
+                                   -- context or the rolled-back transaction); `early`: before the body's own checks
+  | atCommit (watcherDone : Bool)  -- all statements ran; `Commit` finds the context ended: `ErrTxDone` when the
+                                   -- watcher has already rolled back, else `ctx.Err()` (the watcher rolls back next)
+deriving DecidableEq, Repr
+
+/-- what the caller sees: `nil`, one of the store's own errors, or the context's error / `sql.ErrTxDone` -/
+inductive Res where
+  | ok | err (e : Err) | ctxErr
+deriving DecidableEq, Repr
+
+/-- `db.BeginTx(ctx, nil)` -/
+def beginFails : CtxEnd → Bool
+  | .beforeBegin => true
+  | _ => false
+
+/-- `tx.Commit()` after a body that returned nil: `true` = committed; `false` = an error (`ErrTxDone` or
+`ctx.Err()`) and the transaction is (being) rolled back -/
+def commits : CtxEnd → Bool
+  | .alive => true
+  | _ => false
+
+/-- `withWriteTx(ctx, db, fn)`: `fn`'s error → Rollback and that error; otherwise `return tx.Commit()` — the
+result of Commit is returned AS IS, so the call is acknowledged only if the transaction was committed. -/
+def withWriteTx (c : CtxEnd) (st : Store) (b : Except Err Store) : Store × Res :=
+  if beginFails c then (st, .ctxErr)
+  else match c, b with
+    | .inBody true, _ => (st, .ctxErr)
+    | .inBody false, .ok _ => (st, .ctxErr)
+    | _, .error e => (st, .err e)
+    | _, .ok st' => if commits c then (st', .ok) else (st, .ctxErr)
+
+/-- one API call whose context ends at `c` -/
+def stepCtx (h : String → Nat) (st : Store) (op : Op) (c : CtxEnd) : Store × Res :=
+  withWriteTx c st (body h st op)
+
+def runCtx (h : String → Nat) (st : Store) (cops : List (Op × CtxEnd)) : Store :=
+  cops.foldl (fun s oc => (stepCtx h s oc.1 oc.2).1) st
+
+/-- the acknowledged calls (those that returned nil) of a history, in order -/
+def ackedOps (h : String → Nat) : Store → List (Op × CtxEnd) → List Op
+  | _, [] => []
+  | st, (op, c) :: rest =>
+    let r := stepCtx h st op c
+    if r.2 = .ok then op :: ackedOps h r.1 rest else ackedOps h r.1 rest
 
 end Specter.C23
